@@ -32,8 +32,10 @@ TEMPLATES = {
     "child": "{% extends 'base' %}{% block a %}{{ x }}{{ f('d') }}{{ super() }}{% endblock %}",
     "volatile": "{% autoescape x == 1 %}{{ f('<') }}{{ '<' ~ x }}{% endautoescape %}{{ f('>') }}",
     "incl": "{% include 'lib' %}{% import 'lib' as l %}{{ l.lm(2) }}{{ f('e') }}",
+    "libae": "{% macro am(v, fl) %}{% autoescape fl %}{{ f('m') }}{{ v }}{% endautoescape %}|{{ v }}{% endmacro %}",
+    "impae": "{% import 'libae' as l %}{{ l.am('<' ~ x, x == 1) }}{{ '<' }}",
 }
-POOL = ["imp", "fromctx", "loopns", "macro", "child", "volatile", "incl"]
+POOL = ["imp", "fromctx", "loopns", "macro", "child", "volatile", "incl", "impae"]
 # small templates (<= 2 gates) for the 3-task harnesses: the interleaving tree of three 5-step tasks has 756756 leaves
 TEMPLATES.update({
     "slib": "{% set v = f('L') %}{% macro sm() %}{{ v }}{{ x }}{% endmacro %}",
@@ -138,7 +140,11 @@ def shard(arg):
         seen_outcomes.add((tuple(map(str, got)), module_exports(x.env)))
         for i, n in enumerate(names):
             if got[i] != expect[i]:
-                p.violation(f"C37/interference/{n}", {
+                sig = f"C37/interference/{n}"
+                if n == "impae" and list(names).count("impae") >= 2:
+                    # F43: decided structurally (two concurrent callers of the volatile-autoescape macro of one cached module)
+                    sig = "C37/interference/volatile-autoescape-in-cached-module-macro"
+                p.violation(sig, {
                     "msg": f"tasks={names} warm={warm} schedule={x.order}: task {i} ({n}) rendered {got[i]!r}, alone it renders {expect[i]!r}",
                     "tasks": list(names), "warm": warm, "choices": list(x.choices),
                     "script": f"from checks import c37\nc37.replay({list(names)!r}, {warm!r}, {list(x.choices)!r})\n",
